@@ -196,8 +196,12 @@ def run_c08(tier="quick", seed=0, contracts=None):
             viol.append(dict(obligation="C08/bounded/" + ob, what=what, **kw))
     n = 200 if tier == "quick" else 2000
     for i in range(n):
-        kind = rng.choice(["scalar", "array"])
+        kind = rng.choice(["scalar", "array", "int-array", "int"])
         def val():
+            if kind == "int":
+                return rng.randint(-9, 9) or 1
+            if kind == "int-array":   # integer dtype: the uncertainty must not inherit it
+                return np.array([rng.randint(-9, 9) or 1 for _ in range(3)])
             return rng.uniform(-10, 10) if kind == "scalar" else np.array([rng.uniform(-10, 10) for _ in range(3)])
         x, y = val(), val()
         ex, ey = rng.uniform(0, 1), rng.uniform(0, 1)
